@@ -324,6 +324,7 @@ let judge_line (line : string) =
       report line (judge_set_finite (z_of_big_dec x) (z_of_dec_string e) (dec_req d))
   | ["si"; x], [d] -> bump opcount "SetInt64"; Hashtbl.replace nontrivial x ();
       report line (judge_set_finite (z_of_big_dec x) Z0 (dec_req d))
+  | ["nb"; _; _], ["MOD"] -> bump opcount "NewWithBigInt"; report line [z_of_int 88]
   | ["nb"; v; e], [d] -> bump opcount "NewWithBigInt"; Hashtbl.replace nontrivial (v ^ e) ();
       report line (judge_new_big (z_of_hex v) (z_of_dec_string e) (dec_req d))
   | ["mf"; d; variant], [i; f; dpost] ->
